@@ -184,8 +184,10 @@ OPS = ["estimate_u", "estimate_m_label", "em", "estimate_prior", "predict", "pre
 # Operations that REPLACE a table under its name through Splink (register_* with overwrite=True, a second Linker over new frames) and
 # the computations derived from such tables.  Kept out of OPS (C08/C18 draw from OPS); used by C07's re-registration histories.
 REREG_REGISTER_OPS = ["register_predict", "register_labels", "register_concat_with_tf", "register_user_table", "relink"]
+# training calls whose estimates are observed (what THIS call estimated, from the levels' records of trained values / the prior)
+REREG_TRAINING_OPS = ["estimate_u_observed", "em_observed", "estimate_prior_observed", "estimate_m_label_observed"]
 REREG_OBSERVED_OPS = ["cluster_registered", "best_links_registered", "graph_metrics_registered", "accuracy_labels_table", "prediction_errors_labels_table",
-                      "estimate_m_pairwise_labels", "blocking_analysis_user_table"]
+                      "estimate_m_pairwise_labels", "blocking_analysis_user_table"] + REREG_TRAINING_OPS
 REREG_OPS = REREG_REGISTER_OPS + REREG_OBSERVED_OPS
 LABELS_NAME = "my_labels"
 USER_TABLE_NAME = "extra_people"
@@ -228,6 +230,12 @@ def gen_rereg_step(rng: random.Random, world, op, ids=None):
             pr = rng.choice([0.02, 0.3, 0.5, 0.6, 0.9, 0.97]) + 0.001 * k
             r["match_probability"], r["match_weight"] = pr, math.log2(pr / (1 - pr))
         return {"op": op, "p": {"rows": rows, "overwrite": True}}
+    if op in ("estimate_u_observed", "estimate_m_label_observed"):
+        return {"op": op, "p": {}}
+    if op == "em_observed":
+        return {"op": op, "p": {"rule": rng.choice(["l.d = r.d", "l.a = r.a", "l.c = r.c"]), "fix_u": rng.random() < 0.5}}
+    if op == "estimate_prior_observed":
+        return {"op": op, "p": {"rules": rng.choice([["l.a = r.a and l.b = r.b"], ["l.a = r.a and l.c = r.c", "l.b = r.b and l.d = r.d"]]), "recall": rng.choice([1.0, 0.8])}}
     if op == "register_labels":
         rows = _pairs(rng, world, ids, rng.randint(3, 8))
         for r in rows:
@@ -520,6 +528,25 @@ def apply_rereg_op(linker, world, step, state):
         rows = canon_table(r.as_record_dict())
         _keep(state, op, r, rows)
         return rows
+    if op in REREG_TRAINING_OPS:
+        levels = [(cc.output_column_name, i, cl) for cc in linker._settings_obj.comparisons for i, cl in enumerate(cc.comparison_levels)]
+        before = {(c, i): (len(cl._trained_m_probabilities), len(cl._trained_u_probabilities)) for c, i, cl in levels}
+        if op == "estimate_u_observed":
+            linker.training.estimate_u_using_random_sampling(max_pairs=1e5)  # every pair: no sampling, the estimate is a function of the data
+        elif op == "estimate_m_label_observed":
+            linker.training.estimate_m_from_label_column("lab")
+        elif op == "em_observed":
+            linker.training.estimate_parameters_using_expectation_maximisation(p["rule"], fix_u_probabilities=p["fix_u"])
+        else:
+            linker.training.estimate_probability_two_random_records_match(p["rules"], recall=p["recall"])
+        rows = [{"comparison": "(prior)", "level": -1, "what": "probability_two_random_records_match", "n": 0,
+                 "value": float(linker._settings_obj._probability_two_random_records_match)}]
+        for c, i, cl in levels:
+            for what, recs, n0 in (("m", cl._trained_m_probabilities, before[(c, i)][0]), ("u", cl._trained_u_probabilities, before[(c, i)][1])):
+                for n, r in enumerate(recs[n0:]):
+                    v = r["probability"]
+                    rows.append({"comparison": c, "level": i, "what": what + " estimated by this call", "n": n, "value": (float(v) if isinstance(v, (int, float)) else str(v))})
+        return canon_table(rows)
     if op == "blocking_analysis_user_table":
         if not any(k == "user_table" for k, _ in state["registered"]):
             return None
